@@ -101,6 +101,10 @@ class SignatureAdapter(Signature):
                         break
                     elif param.name in kwargs:
                         if param.kind == Parameter.POSITIONAL_ONLY:
+                            if param.default is not Parameter.empty:
+                                # It keeps its default; the same-named keyword is just
+                                # undeclared data for this callback.
+                                continue
                             msg = (
                                 "{arg!r} parameter is positional only, "
                                 "but was passed as a keyword"
@@ -169,6 +173,10 @@ class SignatureAdapter(Signature):
                 # Named arguments don't refer to '*args'-like parameters.
                 # We only arrive here if the positional arguments ended
                 # before reaching the last parameter before *args.
+                continue
+
+            if param.kind == Parameter.POSITIONAL_ONLY:
+                # Named arguments don't refer to positional-only parameters either.
                 continue
 
             param_name = param.name
